@@ -134,6 +134,15 @@ DeleteCollOutcome(st, rq, curTag) ==
                       store |-> Drop(st.store, c),
                       props |-> Drop(st.props, c)])
 
+\* PROPPATCH of DAV:resourcetype: the client asks for another kind of collection.  A valid
+\* combination of resource types makes the collection one of that kind (members and properties
+\* stay); a combination that denotes no kind (rq.kind = "") is refused without effect.
+RetypeOutcome(st, rq) ==
+    LET c == rq.c IN
+    IF ~Exists(st, c) THEN MustFail(st, "nocoll", {"notfound", "refused"})
+    ELSE IF rq.kind = "" THEN MustFail(st, "badtype", {"refused", "precond"})
+    ELSE MustSucceed([st EXCEPT !.colls[c] = rq.kind])
+
 \* A (re)start of the server.  Without --defaults nothing changes; with --defaults the
 \* default calendar / addressbook are created *if absent* (empty, with their kind) and an
 \* existing collection at a default path - whatever its kind, storage or contents - is left
